@@ -190,6 +190,9 @@ const (
 
 // c41exempt: unguarded accesses confirmed not to be races, per field.
 var c41exempt = map[string]map[string]string{
+	"producer.unknownTopics": {
+		"kgo.producer.init: p.unknownTopics (write)": "constructor: runs in NewClient before the client is returned",
+	},
 	"Client.sinksAndSources": {
 		"kgo.Client.close: cl.sinksAndSources": "the metadata loop has exited (<-cl.metadone) so no sink or source is added any more (documented at the site)",
 	},
